@@ -210,6 +210,45 @@ def work(job):
     return res
 
 
+def readfault_work(job):
+    """Faults on the read side: a read(2) on a source file fails, is short, or is short and then fails; whatever the run makes of
+    it, every file afterwards is its original plus reference tokens (nothing missing, nothing foreign)."""
+    from .. import fault
+    built, seed, i, only = job
+    res = {"evaluations": 0, "nontrivial": [], "violations": [], "samples": [], "inconclusive": {}, "counters": {}}
+    rnd = core.rng_for("c03read", seed, i)
+    structured = rnd.random() < 0.4
+    proj = fault.small_project(rnd, nfiles=rnd.choice([2, 3, 5]), stmts=(1, 5), structured=structured, use_cache=rnd.choice([None, False]),
+                               big=rnd.choice([None, 70000, 200000]), label="c03r%d" % i, ambient_p=0)
+    ops, _, rec, _, _ = fault.clean_reference(built, proj, read_ops=True)
+    plan = fault.read_fault_rules(ops)
+    if only is None and len(plan) > 24:
+        plan = rnd.sample(plan[:-1], 23) + plan[-1:]
+    for label, rules in plan:
+        if only is not None and label != only:
+            continue
+        with core.Box(tag="c03r") as box:
+            cfg = proj.materialise(box)
+            r = core.run_breadlog(built, box, cfg, rules=rules, shim=True, read_ops=True, timeout=120)
+            res["evaluations"] += 1
+            if r.panicked() or r.timed_out:
+                res["inconclusive"]["run-crashed-or-timeout (C17's business)"] = res["inconclusive"].get("run-crashed-or-timeout (C17's business)", 0) + 1
+                continue
+            if not any(o["fired"] for o in (r.shim or [])):
+                continue
+            res["counters"]["read_fault_runs"] = res["counters"].get("read_fault_runs", 0) + 1
+            res["nontrivial"].append("readfault|%s|%s|%s" % (proj.label, label.split("@")[0], r.ended()))
+            for rel, before in proj.files.items():
+                now = box.read(rel)
+                if now != before and decompose(before, now) is None:
+                    res["violations"].append({"signature": "C03.not-insert-only|after-%s|%s" % (label.split("@")[0], "structured" if structured else "unstructured"),
+                                              "detail": {"file": rel, "len_before": len(before), "len_after": len(now), "exit": r.ended(), "rules": rules,
+                                                         "shape": shape_of(before, now)},
+                                              "case": {"readfault": [i, label]}})
+                    break
+    return res
+
+
 def main(tier):
     ck = frame.Check(PROP, tier, "exploration", replay_fn=replay_witness)
     built = core.build_repo()
@@ -236,6 +275,8 @@ def main(tier):
     rnd.shuffle(jobs)
     for res in frame.pmap(work, jobs, chunksize=2):
         ck.absorb(res)
+    for res in frame.pmap(readfault_work, [(built, ck.seed, i, None) for i in range(40 if quick else 500)]):
+        ck.absorb(res)
     ck.extra["registry_corpus"] = reg > 0
     ck.extra["registry_files"] = reg
     need = ["class_crlf", "class_gt8k", "class_gt1M", "class_gt4M", "class_copy_run_multiple_of_64KiB", "class_copy_run_multiple_of_4KiB", "class_multibyte", "class_ge1000_insertions", "class_no_final_newline"]
@@ -256,6 +297,8 @@ def main(tier):
 def replay_witness(w, ck=None, built=None):
     built = built or (ck.built if ck else None) or core.build_repo()
     c = w["case"] if "case" in w else w["first"]["case"]
+    if "readfault" in c:
+        return bool(readfault_work((built, w.get("seed", 0), c["readfault"][0], c["readfault"][1]))["violations"])
     files = {}
     for rel, d in c["files"].items():
         files[rel] = bytes.fromhex(d["hex"]) if isinstance(d, dict) else d.encode("utf-8")
